@@ -441,12 +441,27 @@ def widen(fn, du, site):
                 continue
             return None
         ds = du.defs.get(pl["l"], [])
+        for _ in range(4):
+            # through plain copies (`let encoded_len = x.len() as i128; .. encoded_len + overhead`)
+            if len(ds) == 1 and ds[0][0] == "stmt" and ds[0][3]["rv"]["k"] == "use":
+                p2 = mir.op_place(ds[0][3]["rv"]["op"])
+                if p2 is not None and not p2["p"]:
+                    ds = du.defs.get(p2["l"], [])
+                    continue
+            break
         if len(ds) != 1 or ds[0][0] != "stmt" or ds[0][3]["rv"]["k"] != "cast" or ds[0][3]["rv"]["ck"] != "IntToInt":
+            # a small literal that reaches the operation through a variable, a captured variable or a helper parameter
+            # (`let overhead = 160; .. |body| len + overhead`)
+            if CURRENT_F is not None:
+                from .common import outer_origins
+                orgs = [o for _, o in outer_origins(CURRENT_F, fn, rv[side], depth=2)]
+                if orgs and all(o.kind == "const" and "int" in o.const and abs(o.const["int"]) < (1 << (w // 2)) for o in orgs):
+                    continue
             return None
         fw = BITS.get(ds[0][3]["rv"]["from"])
         if not fw or fw * 2 > w:
             return None
-    return "both operands are widened from a type of at most half the width"
+    return "both operands are widened from a type of at most half the width (or small literals)"
 
 
 def range_guard(fn, du, cfg, site):
